@@ -206,6 +206,32 @@ pub fn exec(a: &[&str]) -> (String, String) {
             (obs, oracle)
         }
         "lzma2" => a_lzmadec::exec(a),
+        // h6stats <seed> <n>: runs the first n generated cases of lzmaenc, lzmadec and all of this
+        // area's cases serially in this process and reports how often each H6 shadow assertion
+        // was evaluated (measurement for the evidence; not compared with a model)
+        "h6stats" => {
+            let seed: u64 = a[1].parse().unwrap();
+            let n: usize = a[2].parse().unwrap();
+            let mut failures = 0usize;
+            let mut ran = 0usize;
+            for (which, cmds) in [
+                (0, a_lzmaenc::gen(&mut Rng::new(seed), "quick", &mut Dist::default())),
+                (1, a_lzmadec::gen(&mut Rng::new(seed), "quick", &mut Dist::default())),
+                (2, gen(&mut Rng::new(seed), "quick", &mut Dist::default())),
+            ] {
+                for c in cmds.iter().filter(|c| c.len() < 400_000 && !c.starts_with("h6stats")).take(if which == 2 { usize::MAX } else { n }) {
+                    let parts: Vec<&str> = c.split(' ').collect();
+                    let (obs, _) = match which { 0 => a_lzmaenc::exec(&parts), 1 => a_lzmadec::exec(&parts), _ => exec(&parts) };
+                    ran += 1;
+                    if obs.contains("verif_H6") {
+                        failures += 1;
+                    }
+                }
+            }
+            let hits = vh::verif_h6_hits();
+            let body: Vec<String> = vh::VERIF_H6_SITES.iter().zip(hits.iter()).map(|(s, h)| format!("{s}={h}")).collect();
+            (format!("OK cases={ran} {}", body.join(" ")), if failures == 0 { "ok".into() } else { format!("FAIL {failures} shadow assertions failed") })
+        }
         _ => ("NOCMD".into(), "FAIL unknown command".into()),
     }
 }
